@@ -40,6 +40,19 @@ theorem runClosers_some (cs : List Nat) (w : World) :
     simp only [List.map_cons, runClosers, ih, filter_notin_cons]
     simp
 
+theorem closeBackends_eq (bs : List Nat) (w : World) :
+    closeBackends bs w =
+      { w with acts := w.acts ++ bs.map Act.cacheClose, live := w.live.filter (fun i => !bs.contains i) } := by
+  induction bs generalizing w with
+  | nil =>
+    cases w
+    simp only [closeBackends, List.contains_nil, Bool.not_false, List.map_nil, List.append_nil]
+    congr 1
+    exact (List.filter_eq_self.mpr (by simp)).symm
+  | cons u rest ih =>
+    simp only [closeBackends, ih, filter_notin_cons]
+    simp
+
 /-- what an all-successful prefix leaves behind -/
 def upstreamIds : Nat → List Item → List Nat
   | _, [] => []
@@ -50,36 +63,97 @@ def listenerIds : Nat → List Item → List Nat
   | id, it :: rest =>
     if it.kind = .metrics ∨ it.kind = .server then id :: listenerIds (id + 1) rest else listenerIds (id + 1) rest
 
-def cacheId : Nat → List Item → Option Nat → Option Nat
-  | _, [], c => c
-  | id, it :: rest, c => if it.kind = .cache then cacheId (id + 1) rest (some id) else cacheId (id + 1) rest c
-
-/-- ids of the items of an all-successful prefix that own a socket, in start order -/
-def sockIds : Nat → List Item → List Nat
+/-- ids of the cache backends (memory cache, redis) of an all-successful prefix -/
+def backendIds : Nat → List Item → List Nat
   | _, [] => []
   | id, it :: rest =>
-    if it.kind = .metrics ∨ it.kind = .server ∨ (it.kind = .upstream ∧ it.sock = true)
-    then id :: sockIds (id + 1) rest else sockIds (id + 1) rest
+    if it.kind = .memCache ∨ it.kind = .redisCache then id :: backendIds (id + 1) rest
+    else backendIds (id + 1) rest
 
-theorem sockIds_sub (id : Nat) (items : List Item) :
-    ∀ i ∈ sockIds id items, i ∈ upstreamIds id items ∨ i ∈ listenerIds id items := by
+/-- (`initCache`'s local backends, `r.cache`) after an all-successful prefix -/
+def cacheAfter : Nat → List Item → List Nat × Option (List Nat) → List Nat × Option (List Nat)
+  | _, [], st => st
+  | id, it :: rest, st =>
+    if it.kind = .memCache ∨ it.kind = .redisCache then cacheAfter (id + 1) rest (st.1 ++ [id], st.2)
+    else if it.kind = .cacheDone then cacheAfter (id + 1) rest ([], some (st.2.getD [] ++ st.1))
+    else cacheAfter (id + 1) rest st
+
+/-- ids of the items of an all-successful prefix that own a resource (socket, goroutines), in start order -/
+def resIds : Nat → List Item → List Nat
+  | _, [] => []
+  | id, it :: rest =>
+    if it.kind = .metrics ∨ it.kind = .server ∨ (it.kind = .upstream ∧ it.sock = true) ∨
+       it.kind = .memCache ∨ it.kind = .redisCache
+    then id :: resIds (id + 1) rest else resIds (id + 1) rest
+
+theorem resIds_sub (id : Nat) (items : List Item) :
+    ∀ i ∈ resIds id items,
+      i ∈ upstreamIds id items ∨ i ∈ listenerIds id items ∨ i ∈ backendIds id items := by
   induction items generalizing id with
-  | nil => simp [sockIds]
+  | nil => simp [resIds]
   | cons it rest ih =>
     intro i hi
-    simp only [sockIds] at hi
-    cases hk : it.kind <;> simp [hk, upstreamIds, listenerIds] at hi ⊢
+    simp only [resIds] at hi
+    have hrec : ∀ i ∈ resIds (id + 1) rest,
+        i ∈ upstreamIds id (it :: rest) ∨ i ∈ listenerIds id (it :: rest) ∨ i ∈ backendIds id (it :: rest) := by
+      intro j hj
+      rcases ih (id + 1) j hj with h | h | h
+      · left; simp only [upstreamIds]; split <;> simp [h]
+      · right; left; simp only [listenerIds]; split <;> simp [h]
+      · right; right; simp only [backendIds]; split <;> simp [h]
+    split at hi
+    · rcases List.mem_cons.mp hi with rfl | hi
+      · rename_i hc
+        rcases hc with hc | hc | hc | hc | hc
+        · right; left; simp [listenerIds, hc]
+        · right; left; simp [listenerIds, hc]
+        · left; simp [upstreamIds, hc.1]
+        · right; right; simp [backendIds, hc]
+        · right; right; simp [backendIds, hc]
+      · exact hrec i hi
+    · exact hrec i hi
+
+/-- no backend is ever forgotten: what `r.cache` owns plus what `initCache` holds locally are exactly the
+    backends started so far -/
+theorem cacheAfter_all (id : Nat) (items : List Item) (st : List Nat × Option (List Nat)) :
+    (cacheAfter id items st).2.getD [] ++ (cacheAfter id items st).1
+      = st.2.getD [] ++ st.1 ++ backendIds id items := by
+  induction items generalizing id st with
+  | nil => simp [cacheAfter, backendIds]
+  | cons it rest ih =>
+    simp only [cacheAfter, backendIds]
+    split
+    · rw [ih]; simp
+    · split
+      · rw [ih]; simp
+      · rw [ih]
+
+/-- the automaton state of `stagedFrom` after a prefix -/
+def inAfter : Bool → List Item → Bool
+  | b, [] => b
+  | b, it :: rest =>
+    if it.kind = .memCache ∨ it.kind = .redisCache ∨ it.kind = .ipMarker then inAfter true rest
+    else inAfter false rest
+
+theorem staged_prefix (pre rest : List Item) (b : Bool) (st : List Nat × Option (List Nat)) (id : Nat)
+    (hst : stagedFrom b (pre ++ rest) = true) (hb : b = false → st.1 = []) :
+    stagedFrom (inAfter b pre) rest = true ∧
+      (inAfter b pre = false → (cacheAfter id pre st).1 = []) := by
+  induction pre generalizing b st id with
+  | nil => exact ⟨hst, by simpa [inAfter, cacheAfter] using hb⟩
+  | cons it pre ih =>
+    simp only [List.cons_append, stagedFrom] at hst
+    cases hk : it.kind <;> simp only [hk] at hst <;>
+      simp only [inAfter, cacheAfter, hk, reduceCtorEq, or_false, false_or, or_true, true_or, if_true, if_false,
+        or_self]
     all_goals
       first
-      | (rcases hi with rfl | hi
-         · simp
-         · rcases ih _ _ hi with h | h <;> simp [h])
-      | (split at hi
-         · rcases List.mem_cons.mp hi with rfl | hi
-           · simp
-           · rcases ih _ _ hi with h | h <;> simp [h]
-         · rcases ih _ _ hi with h | h <;> simp [h])
-      | (rcases ih _ _ hi with h | h <;> simp [h])
+      | (simp only [Bool.and_eq_true, Bool.not_eq_true'] at hst
+         exact ih false _ _ hst.2 (fun _ => by first | exact hb hst.1 | rfl))
+      | exact ih true _ _ hst (fun h => by simp at h)
+      | (simp only [Bool.and_eq_true, Bool.not_eq_true'] at hst
+         exact ih true _ _ hst.2 (fun h => by simp at h))
+      | exact ih false _ _ hst (fun _ => rfl)
 
 /-- the state after a prefix whose items all initialise -/
 theorem runFrom_prefix (pre rest : List Item) (hpre : ∀ x ∈ pre, x.ok = true)
@@ -87,12 +161,13 @@ theorem runFrom_prefix (pre rest : List Item) (hpre : ∀ x ∈ pre, x.ok = true
     runFrom id (pre ++ rest) r w att =
       runFrom (id + pre.length) rest
         { r with upstreams := r.upstreams ++ upstreamIds id pre
-                 cache := cacheId id pre r.cache
+                 cacheLocal := (cacheAfter id pre (r.cacheLocal, r.cache)).1
+                 cache := (cacheAfter id pre (r.cacheLocal, r.cache)).2
                  closers := r.closers ++ (listenerIds id pre).map some }
-        { w with live := w.live ++ sockIds id pre }
+        { w with live := w.live ++ resIds id pre }
         (att ++ (List.range pre.length).map (id + ·)) := by
   induction pre generalizing id r w att with
-  | nil => simp [upstreamIds, cacheId, listenerIds, sockIds]
+  | nil => simp [upstreamIds, cacheAfter, listenerIds, resIds]
   | cons it pre ih =>
     have hok : it.ok = true := hpre it (by simp)
     have hpre' : ∀ x ∈ pre, x.ok = true := fun x hx => hpre x (by simp [hx])
@@ -102,41 +177,129 @@ theorem runFrom_prefix (pre rest : List Item) (hpre : ∀ x ∈ pre, x.ok = true
       simp [List.map_map, Function.comp_def, Nat.add_assoc, Nat.add_comm 1]
     simp only [List.cons_append, runFrom]
     cases hk : it.kind <;>
-      simp [initItem, startServer, hok, hk, ih hpre', upstreamIds, cacheId, listenerIds, sockIds, hrange,
+      simp [initItem, startServer, hok, hk, ih hpre', upstreamIds, cacheAfter, listenerIds, resIds, hrange,
         Nat.add_assoc, Nat.add_comm 1] <;>
       (try split) <;> simp
 
-theorem closeImpl_eq (ups : List Nat) (c : Option Nat) (ls : List Nat) (b : Bool) (w : World) :
-    closeImpl ⟨ups, c, ls.map some, b⟩ w =
-      { live := (w.live.filter (fun i => !ups.contains i)).filter (fun i => !ls.contains i)
-        acts := w.acts ++ [.cancel, .limiterClose] ++ ups.map .upClose ++ c.toList.map .cacheClose ++ ls.map .srvClose
+theorem closeImpl_eq (ups loc : List Nat) (c : Option (List Nat)) (ls : List Nat) (b : Bool) (w : World) :
+    closeImpl ⟨ups, loc, c, ls.map some, b⟩ w =
+      { live := ((w.live.filter (fun i => !ups.contains i)).filter (fun i => !(c.getD []).contains i)).filter
+                  (fun i => !ls.contains i)
+        acts := w.acts ++ [.cancel, .limiterClose] ++ ups.map .upClose ++ (c.getD []).map .cacheClose
+                  ++ ls.map .srvClose
         panicked := w.panicked } := by
-  cases c <;> simp [closeImpl, closeUpstreams_eq, runClosers_some]
+  cases c with
+  | none =>
+    simp only [closeImpl, closeUpstreams_eq, runClosers_some, Option.getD_none, List.contains_nil,
+      Bool.not_false, List.map_nil, List.append_nil]
+    congr 1
+    simp
+  | some bs => simp [closeImpl, closeUpstreams_eq, runClosers_some, closeBackends_eq]
 
 /-- the state `run` has reached when every item of `pre` initialised -/
 def afterPrefix (pre : List Item) : Router × World :=
-  ({ upstreams := upstreamIds 0 pre, cache := cacheId 0 pre none, closers := (listenerIds 0 pre).map some },
-   { live := sockIds 0 pre })
+  ({ upstreams := upstreamIds 0 pre
+     cacheLocal := (cacheAfter 0 pre ([], none)).1
+     cache := (cacheAfter 0 pre ([], none)).2
+     closers := (listenerIds 0 pre).map some },
+   { live := resIds 0 pre })
 
 theorem initItem_fail (id : Nat) (it : Item) (r : Router) (w : World) (h : it.ok = false) :
     initItem id it r w = none := by
   cases hk : it.kind <;> simp [initItem, startServer, h, hk]
 
+/-- the state in which the deferred `close` runs after the failure of `it` -/
+def failState (pre : List Item) (it : Item) : Router × World :=
+  failCleanup it (afterPrefix pre).1 (afterPrefix pre).2
+
 theorem run_failure (pre post : List Item) (it : Item)
     (hpre : ∀ x ∈ pre, x.ok = true) (hit : it.ok = false) :
     run (pre ++ it :: post) =
-      ⟨true, { (afterPrefix pre).1 with closeDone := true },
-        closeImpl (afterPrefix pre).1 (afterPrefix pre).2, List.range (pre.length + 1)⟩ := by
+      ⟨true, { (failState pre it).1 with closeDone := true },
+        closeImpl (failState pre it).1 (failState pre it).2, List.range (pre.length + 1)⟩ := by
+  have hcd : (failState pre it).1.closeDone = false := by
+    simp only [failState, failCleanup, afterPrefix]
+    split <;> rfl
   unfold run
   rw [runFrom_prefix pre (it :: post) hpre]
-  simp [runFrom, initItem_fail _ _ _ _ hit, close, afterPrefix, List.range_succ]
+  simp only [runFrom, initItem_fail _ _ _ _ hit, Nat.zero_add, List.nil_append, List.append_nil]
+  have : ({ upstreams := ([] : List Nat) ++ upstreamIds 0 pre
+            cacheLocal := (cacheAfter 0 pre (([] : List Nat), none)).1
+            cache := (cacheAfter 0 pre (([] : List Nat), none)).2
+            closers := ([] : List (Option Nat)) ++ (listenerIds 0 pre).map some } : Router)
+      = (afterPrefix pre).1 := by simp [afterPrefix]
+  simp only [failState, afterPrefix, List.nil_append] at hcd ⊢
+  simp [close, hcd, List.range_succ]
 
-theorem live_after_close (pre : List Item) :
-    (closeImpl (afterPrefix pre).1 (afterPrefix pre).2).live = [] := by
-  simp only [afterPrefix, closeImpl_eq, List.filter_filter]
-  apply List.filter_eq_nil_iff.mpr
-  intro i hi
-  rcases sockIds_sub 0 pre i hi with h | h <;> simp [h]
+/-- whether the failing item's error path releases `initCache`'s local backends -/
+def releasesLocal (k : Kind) : Bool := k == .redisCache || k == .ipMarker || k == .cacheDone
+
+theorem live_after_fail (pre : List Item) (it : Item)
+    (hloc : releasesLocal it.kind = true ∨ (afterPrefix pre).1.cacheLocal = []) :
+    (closeImpl (failState pre it).1 (failState pre it).2).live = [] := by
+  have hall := cacheAfter_all 0 pre ([], none)
+  simp only [Option.getD_none, List.append_nil, List.nil_append] at hall
+  have hmem : ∀ i ∈ resIds 0 pre,
+      i ∈ upstreamIds 0 pre ∨ i ∈ listenerIds 0 pre ∨
+        i ∈ (cacheAfter 0 pre ([], none)).2.getD [] ∨ i ∈ (cacheAfter 0 pre ([], none)).1 := by
+    intro i hi
+    rcases resIds_sub 0 pre i hi with h | h | h
+    · exact Or.inl h
+    · exact Or.inr (Or.inl h)
+    · rw [← hall] at h
+      rcases List.mem_append.mp h with h | h
+      · exact Or.inr (Or.inr (Or.inl h))
+      · exact Or.inr (Or.inr (Or.inr h))
+  by_cases hrel : releasesLocal it.kind = true
+  · have hfc : failCleanup it (afterPrefix pre).1 (afterPrefix pre).2 =
+        ({ (afterPrefix pre).1 with cacheLocal := [] },
+          closeBackends (afterPrefix pre).1.cacheLocal (afterPrefix pre).2) := by
+      cases hk : it.kind <;> simp [releasesLocal, hk] at hrel <;> simp [failCleanup, hk]
+    unfold failState
+    rw [hfc]
+    simp only [afterPrefix, closeImpl_eq, closeBackends_eq, List.filter_filter]
+    apply List.filter_eq_nil_iff.mpr
+    intro i hi
+    rcases hmem i hi with h | h | h | h <;> simp [h]
+  · have hloc' : (afterPrefix pre).1.cacheLocal = [] := by
+      rcases hloc with h | h
+      · exact absurd h hrel
+      · exact h
+    have hfc : failCleanup it (afterPrefix pre).1 (afterPrefix pre).2 = (afterPrefix pre) := by
+      cases hk : it.kind <;> simp [releasesLocal, hk] at hrel <;> simp [failCleanup, hk]
+    simp only [afterPrefix] at hloc'
+    unfold failState
+    rw [hfc]
+    simp only [afterPrefix, closeImpl_eq, List.filter_filter]
+    apply List.filter_eq_nil_iff.mpr
+    intro i hi
+    rcases hmem i hi with h | h | h | h
+    · simp [h]
+    · simp [h]
+    · simp [h]
+    · rw [hloc'] at h; simp at h
+
+/-- in a staged configuration the precondition of `live_after_fail` holds at every failing position -/
+theorem staged_local (pre post : List Item) (it : Item) (hst : staged (pre ++ it :: post) = true) :
+    releasesLocal it.kind = true ∨ (afterPrefix pre).1.cacheLocal = [] := by
+  obtain ⟨h1, h2⟩ := staged_prefix pre (it :: post) false ([], none) 0 (by simpa [staged] using hst) (fun _ => rfl)
+  by_cases hb : inAfter false pre = false
+  · right; simpa [afterPrefix] using h2 hb
+  · have hb' : inAfter false pre = true := by simpa using hb
+    rw [hb'] at h1
+    simp only [stagedFrom] at h1
+    cases hk : it.kind <;> simp [hk] at h1 <;> simp [releasesLocal, hk]
+
+theorem staged_end (cfg : List Item) (hst : staged cfg = true) : (afterPrefix cfg).1.cacheLocal = [] := by
+  have h := staged_prefix cfg [] false ([], none) 0 (by simpa [staged] using hst) (fun _ => rfl)
+  obtain ⟨h1, h2⟩ := h
+  simp only [stagedFrom, Bool.not_eq_true'] at h1
+  simpa [afterPrefix] using h2 h1
+
+theorem live_after_close (cfg : List Item) (hst : staged cfg = true) :
+    (closeImpl (afterPrefix cfg).1 (afterPrefix cfg).2).live = [] := by
+  have h := live_after_fail cfg ⟨.server, false, true⟩ (Or.inr (staged_end cfg hst))
+  simpa [failState, failCleanup] using h
 
 theorem run_success (cfg : List Item) (h : ∀ x ∈ cfg, x.ok = true) :
     run cfg = ⟨false, (afterPrefix cfg).1, (afterPrefix cfg).2, List.range cfg.length⟩ := by
